@@ -125,7 +125,7 @@ def blind_names(spec, d):
         if kind == "array":
             cands += ["%s_%d" % (inst["name"], k) for k in range(inst["n"])]
         if kind == "pair":
-            cands += [inst["name"] + "_p", inst["name"] + "_n"]
+            cands += [inst["name"] + "_" + mn for mn in (inst.get("members") or ["p", "n"])]
         if not cands:
             continue
         new = d.choice(cands) + d.choice(["", "", "_"])
